@@ -26,7 +26,7 @@ theorem vis_set {a : Array Bool} {i x : Nat} :
   · subst h
     by_cases h2 : i < a.size
     · simp [h2]
-    · simp [h2, Array.getElem?_eq_none (Nat.le_of_not_lt h2)]
+    · simp [h2]
   · simp [h]
 
 theorem vis_set_of_vis {a : Array Bool} {i x : Nat} (h : Vis a x) : Vis (a.set! i true) x :=
@@ -69,6 +69,8 @@ theorem cntF_set {a : Array Bool} {i : Nat} (h : a[i]? = some false) :
     apply Array.count_pos_iff.2
     exact hget ▸ Array.getElem_mem hi
   omega
+
+theorem cntF_le_size (a : Array Bool) : cntF a ≤ a.size := Array.count_le_size
 
 theorem not_vis_of_false {a : Array Bool} {x : Nat} (h : a[x]? = some false) : ¬ Vis a x := by
   unfold Vis; rw [h]; simp
@@ -116,6 +118,34 @@ theorem Reach.symm {E : Nat → Nat → Prop} (hE : ∀ a b, E a b → E b a) {u
   | refl => exact .refl _
   | tail _ e ih => exact Reach.head (hE _ _ e) ih
 
+theorem Reach.reverse {E : Nat → Nat → Prop} {u v : Nat} (h : Reach (fun p q => E q p) u v) :
+    Reach E v u := by
+  induction h with
+  | refl => exact .refl _
+  | tail _ e ih => exact Reach.head e ih
+
+theorem append_cons_inj_of_not_mem {v : Nat} : ∀ {p p' s s' : List Nat}, v ∉ p → v ∉ p' →
+    p ++ v :: s = p' ++ v :: s' → p = p' ∧ s = s' := by
+  intro p
+  induction p with
+  | nil =>
+    intro p' s s' _ h2 e
+    cases p' with
+    | nil => simpa using e
+    | cons a r =>
+      simp at e
+      exact absurd (by simp [e.1]) h2
+  | cons a r ih =>
+    intro p' s s' h1 h2 e
+    cases p' with
+    | nil =>
+      simp at e
+      exact absurd (by simp [e.1]) h1
+    | cons b r' =>
+      simp only [List.cons_append, List.cons.injEq] at e
+      have := ih (fun h => h1 (by simp [h])) (fun h => h2 (by simp [h])) e.2
+      exact ⟨by rw [e.1, this.1], this.2⟩
+
 /-! ## graphs -/
 
 theorem Graph.WF.adj_get {g : Graph} (hg : g.WF) {v : Nat} (hv : v < g.n) :
@@ -129,6 +159,14 @@ theorem Graph.HasArc.of_mem {g : Graph} {v : Nat} {x : Arc} (h : x ∈ g.adj.get
 theorem Graph.WF.arc_lt {g : Graph} (hg : g.WF) {u v : Nat} (h : g.HasArc u v) : v < g.n := by
   obtain ⟨x, hx, rfl⟩ := h
   exact hg.bound u x hx
+
+theorem Graph.WF.src_lt {g : Graph} (hg : g.WF) {u v : Nat} (h : g.HasArc u v) : u < g.n := by
+  obtain ⟨x, hx, _⟩ := h
+  rw [← hg.size]
+  by_cases hu : u < g.adj.size
+  · exact hu
+  · unfold Array.getD at hx
+    simp [hu] at hx
 
 /-! ## visitors that never stop the traversal -/
 
